@@ -202,7 +202,7 @@ fn stage2(run: &Run, quick: bool) {
     };
     // wall budget of the whole run (stage 1 included); phases are executed in slices so that the budget
     // can be honoured between slices (a cut is reported as a cap, never as exhaustive)
-    let budget_s: f64 = std::env::var("C20_BUDGET").ok().and_then(|s| s.parse().ok()).unwrap_or(if quick { 53.0 } else { 1750.0 });
+    let budget_s: f64 = std::env::var("C20_BUDGET").ok().and_then(|s| s.parse().ok()).unwrap_or(if quick { 50.0 } else { 1750.0 });
     run.bound("c02.watchdog_cpu_ms_per_call", json!(opts.watchdog_ms));
     run.bound("c02.total_wall_budget_s", json!(budget_s));
     let only: Option<Vec<String>> = std::env::var("C02_ONLY").ok().map(|s| s.split(',').map(|x| x.to_string()).collect());
@@ -222,7 +222,8 @@ fn stage2(run: &Run, quick: bool) {
         run.sample(ph.sample.clone());
         run.count(&format!("c02.{}.cases_enumerated", ph.label), ph.n);
         let t0 = std::time::Instant::now();
-        let slices = 8u64.min(ph.n.max(1));
+        // small slices so that the wall budget is honoured closely even on a busy machine
+        let slices = (ph.n / 1500).clamp(1, 40).min(ph.n.max(1));
         let mut done = 0u64;
         for s in 0..slices {
             if run.elapsed() > budget_s {
